@@ -103,6 +103,7 @@ func (o Op) bytes() []byte {
 // ---------------------------------------------------------------- oplog
 
 type oplogInfo struct {
+	Visible  map[int]uint32 // rotate op -> window offset a snapshot showed while the op was running
 	Begun    map[int]bool
 	Ended    map[int]string
 	Lines    []string
@@ -111,7 +112,7 @@ type oplogInfo struct {
 }
 
 func parseOplog(path string) *oplogInfo {
-	o := &oplogInfo{Begun: map[int]bool{}, Ended: map[int]string{}}
+	o := &oplogInfo{Begun: map[int]bool{}, Ended: map[int]string{}, Visible: map[int]uint32{}}
 	raw, _ := os.ReadFile(path)
 	for _, ln := range strings.Split(string(raw), "\n") {
 		if ln == "" {
@@ -134,6 +135,13 @@ func parseOplog(path string) *oplogInfo {
 					res = f[2]
 				}
 				o.Ended[i] = res
+			}
+		case "VISIBLE":
+			if len(f) == 3 {
+				var off uint32
+				fmt.Sscan(f[1], &i)
+				fmt.Sscan(f[2], &off)
+				o.Visible[i] = off
 			}
 		case "GO":
 			o.Go = true
@@ -456,14 +464,15 @@ func deriveFromFiles(d diskFiles, temp [32]byte) *fstate {
 		}
 		f.authApply(a, -1)
 	}
-	st, err := refenc.ParseStatsStream(d["allDeviceStats.dat"])
-	if err != nil {
-		f.Torn["allDeviceStats.dat"] = err.Error()
-	} else {
-		f.Stats = st
-		if len(st) > 0 {
-			f.Offset = st[len(st)-1].Week + 2016
-		}
+	// A trailing incomplete record belongs to a rotation that never completed;
+	// the whole records before it are what the directory holds.
+	st, rest := parseStatsPrefix(d["allDeviceStats.dat"])
+	if rest > 0 {
+		f.Torn["allDeviceStats.dat"] = fmt.Sprintf("%d bytes of an incomplete record follow %d whole records", rest, len(st))
+	}
+	f.Stats = st
+	if len(st) > 0 {
+		f.Offset = st[len(st)-1].Week + 2016
 	}
 	rp := d["equipment-reports.dat"]
 	if len(rp)%80 != 0 {
@@ -485,6 +494,26 @@ func deriveFromFiles(d diskFiles, temp [32]byte) *fstate {
 		slotApply(&f.Slots[rep.ID][rep.Slot-f.Offset], rep, a.Capacity)
 	}
 	return f
+}
+
+// parseStatsPrefix decodes the whole records at the start of a history file
+// and returns how many bytes follow them.
+func parseStatsPrefix(b []byte) ([]refenc.Stats, int) {
+	var out []refenc.Stats
+	for len(b) >= 4 {
+		n := int(uint32(b[0]) | uint32(b[1])<<8 | uint32(b[2])<<16 | uint32(b[3])<<24)
+		need := 4 + n*(32+2016*16) + 4 + 64
+		if n > 1<<20 || len(b) < need {
+			break
+		}
+		r, err := refenc.ParseStatsStream(b[:need])
+		if err != nil || len(r) != 1 {
+			break
+		}
+		out = append(out, r[0])
+		b = b[need:]
+	}
+	return out, len(b)
 }
 
 // ---------------------------------------------------------------- comparers
